@@ -100,6 +100,16 @@ def tasks(tier):
     for pc, mu, e in itertools.product([{}, {"U": 1}], [0, 1], Q4 + ["Policy.call", "AsyncPolicy.execute"]):
         cfg = dict(M=4, per_class=pc, max_unknown=mu, alphabet=["ok", "xq:U", "x:T", "xq:P"])
         out.append({"family": "caps-chained-cause", "cfg": cfg, "entry": e, "bound": 0})
+    # a Budget with plenty of tokens is configured next to the class caps; an impure (one-shot)
+    # result classifier
+    for pc, mu, e in itertools.product([{"T": 1}, {"R": 2, "U": 1}, {}], [None, 1], Q4):
+        cfg = dict(M=4, per_class=pc, max_unknown=mu, alphabet=["ok", "x:T", "x:R", "x:U", "r:T"],
+                   budget={"max": 6, "window": 8})
+        out.append({"family": "caps-with-budget", "cfg": cfg, "entry": e, "bound": 0})
+    for pc, e in itertools.product([{}, {"R": 1}], Q4):
+        cfg = dict(M=4, per_class=pc, max_unknown=None, alphabet=["ok", "r:P", "r:R", "r:T", "x:T"],
+                   rc_mode="oneshot")
+        out.append({"family": "caps-oneshot-classifier", "cfg": cfg, "entry": e, "bound": 0})
     # long runs: a cap of 8 or 9, and a cap of 1 whose class comes back after many other failures
     for pc, mu in [({"T": 8}, None), ({"T": 9, "U": 1}, None), ({}, 8), ({"U": 1, "T": 10}, 3)]:
         for e in Q4:
